@@ -23,7 +23,7 @@ const int   NMUT   = sizeof MUTS / sizeof MUTS[0];
 // runs are not cut short; a plan with knob unguard_ro_api=1 executes them.
 const char *GUARDED[] = {"GRsetattr-file", "GRsetattr-image", "SDcreate", "SDsetattr-file", "SDsetattr-sds", "SDsetcal", "SDsetdatastrs",
                          "SDsetdimname", "SDsetdimscale", "SDsetfillvalue", "SDsetrange", "VSattach-new", "VSsetname-on-r",
-                         "Vaddtagref-on-r", "GRsetcompress", nullptr};
+                         "Vaddtagref-on-r", "GRsetcompress", "GRwritelut", nullptr};
 
 struct ReadOnly : Profile {
     const char *name() const override { return "readonly"; }
